@@ -602,10 +602,11 @@ class DebianCopyright(object):
             if (isinstance(para1, CopyrightLicenseParagraph)
                 and para1.is_empty()
                 and isinstance(para2, CatchAllParagraph)
-                and para2.is_all_unknown()
+                and list(para2.to_dict()) == ['unknown']
+                and para2.to_dict()['unknown']
             ):
                 para1.license.name = ''
-                para1.license.text = para2.to_dict().get('unknown', '')
+                para1.license.text = para2.to_dict()['unknown']
 
                 # The updated CopyrightLicenseParagraph paragraph lines extend
                 # from its original start line to the end line of the
